@@ -18,12 +18,19 @@ func init() {
 			a.fragmentResetBeforeDispatch("S.fragment-reset")
 			a.c15FragmentPrefix()
 			a.c14NonFragmentResets()
+			a.c15VerifyTable("P.tag-table")
 		})
 }
 
 func (a *An) c14Sender() {
 	R := a.R
 	rule := "V.fragment-arith"
+	// every encoded message goes through the splitter, which alone decides whether it fits (no estimate beside it)
+	if fe := a.MustFn("(*Conversation).fragEncode"); fe != nil {
+		for _, r := range a.returnsOf(fe) {
+			a.TermIs(rule, "fragEncode|always-split", "what is sent is fragment(encode(msg), fragment size)", r, r.Results[0], "(*Conversation).fragment($c, (*Conversation).encode($c, $msg), Conversation.fragmentSize)")
+		}
+	}
 	fn := a.MustFn("(*Conversation).fragment")
 	if fn == nil {
 		return
